@@ -308,9 +308,16 @@ def run_property(modname, prop, tier, seed, nproc=None, budget_s=None):
     total_budget = budget_s or (240 if tier == "quick" else 1500)
     deadline = t0 + total_budget
     tasks = []
+    # VERIF_ONLY="unit[:ci,ci];unit2" restricts a development run to some units/configurations (evidence goes wherever VERIF_OUT says)
+    only = {}
+    for part in filter(None, os.environ.get("VERIF_ONLY", "").split(";")):
+        nm, _, idx = part.partition(":")
+        only[nm] = {int(x) for x in idx.split(",") if x}
     for ui, u in enumerate(units):
         cfgs = u.configs(tier)
         for ci, cfg in enumerate(cfgs):
+            if only and (u.name not in only or (only[u.name] and ci not in only[u.name])):
+                continue        # development filter, never set by a registered command
             d = u.shard_depth(cfg, tier) if u.shard_depth else None
             tasks.append((modname, prop, ui, ci, cfg, [], d, deadline, timeout_ms, witness_every, seed, None))
     agg = {}
